@@ -41,6 +41,8 @@ structure St where
   vo : Bool := false
   absPhi : Bool := false
   alias : Char := 'n'
+  /-- `ZERO` of ReedsSheppStateSpace.cpp as extracted from the source under test (header token `zero=<bits>`); default: as coded at HEAD -/
+  rsZero : Option Float := none
 
 /-- `op@f` / `op@t`: the aliasing mode of the current op (`none`: a separate output object, answered by the pure functions; otherwise
 the store-semantics model of `Model/CarAlias.lean` is run with the output pointer designating the `from` / `to` object) -/
@@ -64,6 +66,12 @@ def init (ts : List String) : Option St :=
     let _ ← (kv? "lo" lo) >>= parseFloatBits?
     let _ ← (kv? "hi" hi) >>= parseFloatBits?
     pure { rho := r, sym := false, rs := true }
+  | ["rs", r, lo, hi, z] => do
+    let r ← (kv? "rho" r) >>= parseFloatBits?
+    let _ ← (kv? "lo" lo) >>= parseFloatBits?
+    let _ ← (kv? "hi" hi) >>= parseFloatBits?
+    let z ← (kv? "zero" z) >>= parseFloatBits?
+    pure { rho := r, sym := false, rs := true, rsZero := some z }
   | ["dint"] => some { rho := 1.0, sym := false, dint := true }
   | ["vana", r, p, lo, hi] => do
     let r ← (kv? "rho" r) >>= parseFloatBits?
@@ -143,7 +151,12 @@ def showMV (r : OmplModel.Motion.Result) (n : Nat) (havePath : Bool) (lseg : Flo
 
 def show3 (P : Pose Float) : String := ",".intercalate [floatBits P.x, floatBits P.y, floatBits P.th]
 
-def stepRS (st : St) (ts : List String) : St × String :=
+/-- the Reeds-Shepp model at the `ZERO` of the source under test -/
+@[instance_reducible] def rsInst (z : Float) : OmplModel.RS.RSNum Float where
+  asin := Float.asin
+  zeroTol := z
+
+def stepRSWith (inst : OmplModel.RS.RSNum Float) (st : St) (ts : List String) : St × String :=
   match ts with
   | ["rspath", a, b, c, d, e, f] =>
     match pose? [a, b, c], pose? [d, e, f] with
@@ -233,6 +246,11 @@ def stepRS (st : St) (ts : List String) : St × String :=
         " dub=" ++ optBits (distance st.rho false s1 s2) ++ " dubrev=" ++ optBits (distance st.rho false s2 s1))
     | _, _ => (st, "bad-op")
   | _ => (st, "bad-op")
+
+def stepRS (st : St) (ts : List String) : St × String :=
+  match st.rsZero with
+  | some z => stepRSWith (rsInst z) st ts
+  | none => stepRSWith inferInstance st ts
 
 def stepD (st : St) (ts : List String) : St × String :=
   match ts with
